@@ -1,4 +1,5 @@
 import Cactus.Lemmas.Release
+import Cactus.Lemmas.ReleaseSem
 import Cactus.Lemmas.Basic
 /-!
 # C04 — destroyed objects return all memory
@@ -10,10 +11,22 @@ and its value `value`.  What is proved here:
 * whole panic-free histories (`ReachableNP`), at operation boundaries:
   `C04_destroyed_objects_return_memory`, `C04_fully_collected_graph_leaks_nothing`;
 * example: one history in which objects die by every path (collected group, zero count with
-  adoptions, plain last-handle drop, `try_unwrap`), the theorems instantiated at every object.
+  adoptions, plain last-handle drop, `try_unwrap`), the theorems instantiated at every object;
+* **no leak without a panic** (last section): the syntactic restriction `ReachableNP` replaced by
+  a semantic one, for *every* history (`Reachable`, `setPanic` allowed):
+  `C04_release_invariant_lost_only_by_panic` (in every reachable state the release invariant
+  `InvN` holds unless a panic is unwinding, a panic has been caught — `Ev.panicked ∈ log` — or the
+  machine has stopped with an error; the only machine step that can lose it is that of a `panic`
+  frame, `C04_only_the_panic_frame_loses_it`), `C04_no_leak_without_a_panic` and
+  `C04_no_panic_so_far_leaks_nothing` (the two whole-history results for every state at an
+  operation boundary with no `Ev.panicked` in its log), with an example that uses `setPanic`
+  (old theorems silent, new one applies) and one in which a destructor does panic (the
+  hypothesis is necessary: a dead object without Weak handles stays allocated).
 Not proved: the real allocator and hashbrown's buffer policy are abstracted; the harness observes
 exact `RcBox` block counts per step (the `F`/`heap` channels) and the end-of-history byte balance.
-Histories with panicking destructors legitimately leak (C11) and are excluded.
+Executions in which a destructor has panicked legitimately leak (C11) and are excluded — by the
+syntactic `ReachableNP` in the first whole-history section, by "no `Ev.panicked` logged so far" in
+the last.
 -/
 namespace Cactus
 open State
@@ -197,5 +210,184 @@ example (o : Nat) (ob : Obj) (hg : (run releaseAllHistory).heap[o]? = some ob) :
 
 example : (run releaseAllHistory).heap.map (·.freed) = [true, true, true, true, true, true]
     ∧ (run releaseAllHistory).log.drop 13 = [.freed 0, .freed 5] := by decide +kernel
+
+end Cactus
+
+namespace Cactus
+open State
+
+/-! ## No leak without a panic
+
+The section above excludes panics *syntactically*: `ReachableNP` forbids every `setPanic` in the
+history, although a value that has been told to panic leaks nothing as long as its destructor has not
+run.  Here the hypothesis is about what the execution did: the statements hold for **every**
+history (`Reachable`), at every operation boundary at which no destructor has panicked so far — no
+`Ev.panicked` in the log (`endOp`, the `catch_unwind` at the operation boundary, logs it when the
+operation unwound).
+
+The invariant behind C04 is `State.InvN`: an implicit weak reference that a dead object still owns
+is owed by exactly one pending frame (`finishSingle` or `phase3`).  A panicking destructor discards
+those frames (`State.panic` filters the stack down to the cleanup frames), and that is the only way
+in which the invariant is ever lost. -/
+
+/-- **The release invariant is lost only by a panic.**  In every reachable state — any history,
+`setPanic` allowed — `InvN` holds, or a destructor panic is unwinding right now, or one has been
+caught at an earlier operation boundary, or the machine has stopped with an error (abort on a double
+panic, fuel, a history outside the contract of the handle table). -/
+theorem C04_release_invariant_lost_only_by_panic {s : State} (h : Reachable s) :
+    s.InvN ∨ s.unwinding = true ∨ Ev.panicked ∈ s.log ∨ s.err ≠ none :=
+  reachable_invN_or_panic h
+
+/-- … and the transition that loses it is the step of a `panic` frame, no other: every machine step
+whose top frame is not `panic` preserves `InvN` (no hypothesis about what the values in the state
+could do later), and so do the operations (`applyOp_InvN`) and `catch_unwind` (`endOp`); the step of a
+`panic` frame starts unwinding (or aborts). -/
+theorem C04_only_the_panic_frame_loses_it (s : State) (hI : s.Inv) (hR : s.InvR) (hN : s.InvN) :
+    ((∀ rest, s.stack ≠ .panic :: rest) → (step s).err = none →
+        (step s).InvN ∧ (step s).unwinding = s.unwinding)
+    ∧ (∀ op, (applyOp s op).err = none → (applyOp s op).InvN ∧ (applyOp s op).unwinding = s.unwinding)
+    ∧ (endOp s).InvN
+    ∧ (∀ rest, s.err = none → s.stack = .panic :: rest →
+        (step s).unwinding = true ∨ (step s).err ≠ none) :=
+  ⟨fun htop he => ⟨step_InvN_of_not_panic s hI hR hN htop he, ReleaseSem.step_unw_eq_of_not_panic s htop⟩,
+   fun op he => ⟨applyOp_InvN s op hI hR hN he, ReleaseSem.applyOp_unw s op⟩,
+   endOp_InvN_of_InvN s hN,
+   fun _ herr hst => step_panic_frame s herr hst⟩
+
+/-- **C04, no leak without a panic.**  Between operations of any execution in which no destructor
+has panicked so far (whatever the program could have done: values set to panic may be alive in the
+heap), for every object whose value has been destroyed (or moved out): its link table and value are
+gone, its implicit weak reference has been released, and its allocation is released exactly when no
+Weak handle to it remains. -/
+theorem C04_no_leak_without_a_panic {s : State} (h : Reachable s) (he : s.err = none)
+    (hq : s.stack = []) (hu : s.unwinding = false) (hl : Ev.panicked ∉ s.log)
+    {o : Nat} {ob : Obj} (hg : s.heap[o]? = some ob) (hd : ob.strong.isDead = true) :
+    ob.links = none ∧ ob.value = none ∧ ob.implicit = false
+      ∧ (ob.freed = true ↔ s.extW o + s.inHeapW o = 0) :=
+  C04_dead_object_released_sem h he hq hu hl hg hd
+
+/-- after any history in which no destructor has panicked, every object has been destroyed and every
+Weak (and unwrapped value) dropped, every allocation has been released -/
+theorem C04_no_panic_so_far_leaks_nothing {s : State} (h : Reachable s) (he : s.err = none)
+    (hq : s.stack = []) (hu : s.unwinding = false) (hl : Ev.panicked ∉ s.log)
+    (hall : ∀ (o : Nat) (ob : Obj), s.heap[o]? = some ob → ob.strong.isDead = true)
+    (hw : s.wroots = []) (hv : s.vals = []) :
+    ∀ (o : Nat) (ob : Obj), s.heap[o]? = some ob → ob.freed = true :=
+  C04_all_collected_nothing_left_sem h he hq hu hl hall hw hv
+
+/-- the states produced by `run` are at an operation boundary: never unwinding -/
+theorem run_not_unwinding (ops : List (Op × List Nat)) (he : (run ops).err = none) :
+    (run ops).unwinding = false := by
+  unfold run at he ⊢
+  generalize hs0 : ({} : State) = s0 at he ⊢
+  have h0 : s0.unwinding = false := by subst hs0; rfl
+  clear hs0
+  induction ops generalizing s0 with
+  | nil => exact h0
+  | cons oh rest ih =>
+    simp only [List.foldl_cons] at he ⊢
+    refine ih _ he ?_
+    unfold execOp
+    split
+    · exact h0
+    · exact ReleaseSem.endOp_unw _
+
+/-! ### (a) A history that uses `setPanic` and leaks nothing
+
+The ring `0 ↔ 1` (with a Weak to member 0) is collected completely while object 2, whose destructor
+has been told to panic, stays alive.  The history is not `noPanic`, so `ReachableNP` and the theorems
+of the section above say nothing about it; no destructor has panicked, so the new theorem applies. -/
+
+def armedHistory : List (Op × List Nat) :=
+  [(.act .new, []), (.act .new, []),
+   (.act (.clone 1), []), (.act (.link 2 0), []),     -- 0 → 1
+   (.act (.clone 0), []), (.act (.link 2 1), []),     -- 1 → 0: a two-cycle
+   (.act (.downgrade 0), []),                         -- Weak to member 0
+   (.act .new, []),                                   -- object 2
+   (.act (.setPanic 2), []),                          -- … whose destructor will panic
+   (.act (.drop 1), []),                              -- program's handle to 1
+   (.act (.drop 0), [])]                              -- handle to 0: the group {0, 1} is collected
+
+/-- outside the syntactic class -/
+example : ¬ ∀ oh ∈ armedHistory, oh.1.noPanic := by decide
+
+/-- the final state by evaluation: object 2 alive and armed, 0 and 1 dead, no panic logged -/
+example : let s := run armedHistory
+    s.roots = [2] ∧ s.wroots = [0] ∧ s.vals = [] ∧ s.stack = [] ∧ s.err = none ∧ s.unwinding = false
+    ∧ s.heap.map (fun ob => (ob.strong, ob.weak, ob.links.isNone, ob.value.map (·.panics), ob.freed, ob.implicit))
+      = [(.uninit, 1, true, none, false, false), (.uninit, 0, true, none, true, false),
+         (.cnt 1, 1, false, some true, false, true)]
+    ∧ s.log = [.traced 1 2 3, .traced 0 2 3, .destroyed 1, .destroyed 0, .freed 1] := by
+  decide +kernel
+
+/-- `C04_no_leak_without_a_panic` instantiated at every dead object of that state -/
+example (o : Nat) (ob : Obj) (hg : (run armedHistory).heap[o]? = some ob)
+    (hd : ob.strong.isDead = true) :
+    ob.links = none ∧ ob.value = none ∧ ob.implicit = false
+      ∧ (ob.freed = true ↔ (run armedHistory).extW o + (run armedHistory).inHeapW o = 0) :=
+  C04_no_leak_without_a_panic (run_reachable armedHistory) (by decide +kernel) (by decide +kernel)
+    (by decide +kernel) (by decide +kernel) hg hd
+
+/-- member 0 is kept by its Weak handle, member 1 is released -/
+example : (run armedHistory).extW 0 + (run armedHistory).inHeapW 0 = 1
+    ∧ (run armedHistory).extW 1 + (run armedHistory).inHeapW 1 = 0
+    ∧ (run armedHistory).heap.map (·.freed) = [false, true, false] := by decide +kernel
+
+/-- a history whose destructor script contains `setPanic` (so it is not `noPanic`) but finds no handle
+to arm when it runs: everything is collected, `C04_no_panic_so_far_leaks_nothing` applies -/
+def harmlessHistory : List (Op × List Nat) :=
+  [(.act .new, []), (.setScript 0 [.setPanic 0], []), (.act (.drop 0), [])]
+
+example : ¬ ∀ oh ∈ harmlessHistory, oh.1.noPanic := by decide
+
+example (o : Nat) (ob : Obj) (hg : (run harmlessHistory).heap[o]? = some ob) : ob.freed = true := by
+  have hd : ∀ ob ∈ (run harmlessHistory).heap, ob.strong.isDead = true := by decide +kernel
+  exact C04_no_panic_so_far_leaks_nothing (run_reachable harmlessHistory) (by decide +kernel)
+    (by decide +kernel) (run_not_unwinding _ (by decide +kernel)) (by decide +kernel)
+    (fun o ob hg => hd ob (List.mem_of_getElem? hg)) (by decide +kernel) (by decide +kernel) o ob hg
+
+/-! ### (b) The hypothesis is necessary: a destructor that does panic leaks
+
+The same ring, member 0 armed.  The collection destroys value 1, then value 0, whose destructor
+panics: the `phase3` continuation (release of the implicit weak references) is discarded.  At the
+next operation boundary `Ev.panicked` is in the log, both members are dead, no Weak handle to either
+exists — and neither allocation has been released (this is C11's legitimate leak). -/
+
+def panickedHistory : List (Op × List Nat) :=
+  [(.act .new, []), (.act .new, []),
+   (.act (.clone 1), []), (.act (.link 2 0), []),     -- 0 → 1
+   (.act (.clone 0), []), (.act (.link 2 1), []),     -- 1 → 0: a two-cycle
+   (.act (.setPanic 0), []),                          -- member 0's destructor will panic
+   (.act (.drop 1), []),
+   (.act (.drop 0), [])]                              -- the group {0, 1} is collected; value 0 panics
+
+example : let s := run panickedHistory
+    s.err = none ∧ s.stack = [] ∧ s.unwinding = false ∧ s.roots = [] ∧ s.wroots = [] ∧ s.vals = []
+    ∧ Ev.panicked ∈ s.log
+    ∧ s.log = [.traced 1 2 3, .traced 0 2 3, .destroyed 1, .destroyed 0, .panicked]
+    ∧ s.heap.map (fun ob => (ob.strong, ob.weak, ob.links.isNone, ob.value.isSome, ob.freed, ob.implicit))
+      = [(.uninit, 1, true, false, false, true), (.uninit, 1, true, false, false, true)] := by
+  decide +kernel
+
+/-- the conclusion of `C04_no_leak_without_a_panic` fails at both objects of that (reachable,
+error-free, quiescent) state: dead, no Weak handle, not released, implicit weak still owned -/
+example : Reachable (run panickedHistory)
+    ∧ ∀ o < 2, ∃ ob, (run panickedHistory).heap[o]? = some ob ∧ ob.strong.isDead = true
+        ∧ (run panickedHistory).extW o + (run panickedHistory).inHeapW o = 0
+        ∧ ob.freed = false ∧ ob.implicit = true :=
+  ⟨run_reachable _, by decide +kernel⟩
+
+/-- and the release invariant itself is lost there: only the third disjunct of
+`C04_release_invariant_lost_only_by_panic` holds -/
+example : ¬ (run panickedHistory).InvN ∧ (run panickedHistory).unwinding = false
+    ∧ Ev.panicked ∈ (run panickedHistory).log ∧ (run panickedHistory).err = none := by
+  refine ⟨fun hN => ?_, by decide +kernel, by decide +kernel, by decide +kernel⟩
+  have h1 : ∃ ob, (run panickedHistory).heap[0]? = some ob ∧ ob.strong.isDead = true
+      ∧ ob.implicit = true := by decide +kernel
+  obtain ⟨ob, hg, hd, hi⟩ := h1
+  have h2 := hN 0 ob hg hd hi
+  have h3 : (run panickedHistory).stack = [] := by decide +kernel
+  rw [owed_of_stack_nil h3] at h2
+  cases h2
 
 end Cactus
